@@ -65,6 +65,22 @@ def run(tier, seed, rng):
                     meta.append((gid, k, need, len(full)))
             groups.append(G)
             gid += 1
+    # ---- part 1b: a field placed by a displacement read from the wire (shift by a signed field, by an expression, by a callable): a
+    # hostile displacement that overshoots the start of the input must fail, never decode the field from the END of the buffer
+    sgroups = []
+    for variant, (how, last) in enumerate([('field', ('leaf', ('dsized', ('lit', 2), 'const', b''))), ('lambda', ('leaf', ('int', 2, False, None, 0))),
+                                           ('expr', ('leaf', ('int', 3, False, None, 0))), ('field', ('leaf', ('int', 1, False, None, 0)))]):
+        arg = ('field', 1) if how == 'field' else ('fun', ('bin', 'Sub', ('field', 1), ('lit', 0)))
+        for gen_on in (True, False):
+            table = {0: dict(end=None, align=None, sbl=None, gp=gen_on, gu=gen_on, vec=True, ann=True,
+                             fields=[{'move': None, 'body': ('elem', ('leaf', ('dsized', ('lit', 4), 'const', b'')))},
+                                     {'move': None, 'body': ('elem', ('leaf', ('int', 1, True, None, 0)))},
+                                     {'move': (arg, 'RCur', False, 'shift'), 'body': ('elem', last)}])}
+            G = pktcases.Group(table, 70000 + len(sgroups))
+            for k in range(-12, 3):
+                for off, pre in ((0, b''), (2, b'PQ')):
+                    G.add_unpack(0, pre + b'ABCD' + bytes([k % 256]) + b'wxyz', off, record=True)
+            sgroups.append(G)
     # ---- part 2: random declarations, every truncation of valid encodings + corrupted + random inputs
     ng = 50 if tier == 'quick' else 2000
     groups2 = pktprops.make_groups(rng, ng, lambda g: dict(generic_unpack=(g % 2 == 0)), values_per_class=2 if tier == 'quick' else 4,
@@ -73,7 +89,7 @@ def run(tier, seed, rng):
         for c in G.table:
             for _ in range(2):
                 G.add_unpack(c, bytes(rng.randrange(256) for _ in range(rng.randrange(0, 12))), 0, record=True)
-    records, disagreements = pktcases.run_groups(groups + groups2, 'c04')
+    records, disagreements = pktcases.run_groups(groups + groups2 + sgroups, 'c04')
     rts = [r for r in records if r['kind'] == 'roundtrip']
     fam = [r for r in rts if r['group'] < gid]
     assert len(fam) == len(meta)
@@ -90,7 +106,7 @@ def run(tier, seed, rng):
             if 'ok' not in o or o['end'] != r['offset'] + need:
                 failures.append(dict(kind='oracle', sig='strict-full', what='a complete encoding was not accepted / the cursor is wrong',
                                      classes=pktprops.class_source(groups, g), raw=r['raw'].hex(), offset=r['offset'], observed=o))
-    allg = groups + groups2
+    allg = groups + groups2 + sgroups
     for r in rts:
         o = r['outcome']
         if r['group'] >= gid:
